@@ -504,10 +504,12 @@ impl FileStateMachine {
         let mut pos = 0;
         let mut operations = Vec::new();
         let mut replayed_count = 0;
+        // Highest fully parsed WAL record: the state restored below reflects entries up to it.
+        let mut highest_replayed: Option<(u64, u64)> = None;
 
         while pos + 17 < buffer.len() {
             // Read entry index (8 bytes)
-            let _index = u64::from_be_bytes(buffer[pos..pos + 8].try_into().unwrap());
+            let record_index = u64::from_be_bytes(buffer[pos..pos + 8].try_into().unwrap());
             pos += 8;
 
             // Read entry term (8 bytes)
@@ -600,6 +602,9 @@ impl FileStateMachine {
             let expire_at_secs = if secs > 0 { Some(secs) } else { None };
 
             operations.push((op_code, key, value, term, expire_at_secs));
+            if highest_replayed.is_none_or(|(idx, _)| record_index > idx) {
+                highest_replayed = Some((record_index, term));
+            }
             replayed_count += 1;
         }
 
@@ -706,6 +711,15 @@ impl FileStateMachine {
             "WAL replay complete: {} operations replayed, {} applied, {} expired keys skipped",
             replayed_count, applied_count, skipped_expired
         );
+
+        // The data now contains every replayed entry: report them as applied, otherwise they
+        // are applied a second time after restart (CAS / TTL results would differ).
+        if let Some((idx, term)) = highest_replayed
+            && idx > self.last_applied_index.load(Ordering::SeqCst)
+        {
+            self.last_applied_index.store(idx, Ordering::SeqCst);
+            self.last_applied_term.store(term, Ordering::SeqCst);
+        }
 
         // Unconditionally clear WAL after replay. load_data() already restored the last
         // checkpoint; WAL is only the post-checkpoint delta. Even if 0 entries were applied
